@@ -325,7 +325,11 @@ func (s *Sim) adminActions() []Action {
 				if _, has := n.Annotations[k]; has {
 					add("node.override- "+n.Name+" "+e.Key(), func() { delete(n.Annotations, k); s.Store.ForceUpdate(n) })
 				} else {
-					for _, v := range []string{`{"requests":{"cpu":"300m"}}`, `{"requests":{"cpu":"400m"}}`} {
+					vals := []string{`{"requests":{"cpu":"300m"}}`, `{"requests":{"cpu":"400m"}}`}
+					if s.W.Extra["malformed"] == "1" {
+						vals = append(vals, `{"requests":{"cpu":`)
+					}
+					for _, v := range vals {
 						v := v
 						add("node.override "+n.Name+" "+e.Key()+" "+v, func() {
 							if n.Annotations == nil {
